@@ -9,6 +9,7 @@ import (
 	"os"
 	"os/exec"
 	"path/filepath"
+	"regexp"
 	"sort"
 	"strconv"
 	"strings"
@@ -22,19 +23,19 @@ import (
 )
 
 type ReplayRec struct {
-	Property   string          `json:"property"`
-	Obligation string          `json:"obligation"`
-	Harness    string          `json:"harness"`
-	Func       string          `json:"func"`
-	Tier       string          `json:"tier"`
-	Params     map[string]int  `json:"params"`
-	Inputs     []sx.NondetRec  `json:"inputs"`
-	Observed   []sx.ObsRec     `json:"observed,omitempty"`
-	Schedule   []int           `json:"schedule,omitempty"`
-	Mode       string          `json:"mode,omitempty"`
-	Expect     string          `json:"expect"`
-	Msg        string          `json:"msg,omitempty"`
-	Pos        string          `json:"pos,omitempty"`
+	Property   string            `json:"property"`
+	Obligation string            `json:"obligation"`
+	Harness    string            `json:"harness"`
+	Func       string            `json:"func"`
+	Tier       string            `json:"tier"`
+	Params     map[string]int    `json:"params"`
+	Inputs     []sx.NondetRec    `json:"inputs"`
+	Observed   []sx.ObsRec       `json:"observed,omitempty"`
+	Schedule   []int             `json:"schedule,omitempty"`
+	Mode       string            `json:"mode,omitempty"`
+	Expect     string            `json:"expect"`
+	Msg        string            `json:"msg,omitempty"`
+	Pos        string            `json:"pos,omitempty"`
 	SrcHash    map[string]string `json:"src_hash,omitempty"`
 }
 
@@ -76,11 +77,47 @@ func instrumented(pp *packages.Package, dir string) (map[string]string, error) {
 	return out, nil
 }
 
+func isRaceOb(id string) bool { return strings.HasPrefix(id, "C15.RACE@") }
+
+// runNative replays the given records natively. Records of the race obligation
+// are replayed differently (runNativeRace): uninstrumented sources, no schedule
+// player (its hand-offs would order every pair of threads and hide the race from
+// the detector), `go test -race`.
 func runNative(reg *Registry, files []string, pp *packages.Package) (map[string]replayOutcome, error) {
+	var plain, race []string
+	for _, f := range files {
+		var rec ReplayRec
+		if b, err := os.ReadFile(f); err == nil {
+			_ = json.Unmarshal(b, &rec)
+		}
+		if isRaceOb(rec.Obligation) {
+			race = append(race, f)
+		} else {
+			plain = append(plain, f)
+		}
+	}
+	out, err := runNativeMode(reg, plain, pp, false)
+	if err != nil {
+		return out, err
+	}
+	for _, f := range race {
+		o, err := runNativeMode(reg, []string{f}, pp, true)
+		if err != nil {
+			return out, err
+		}
+		out[f] = o[f]
+	}
+	return out, nil
+}
+
+var raceLineRe = regexp.MustCompile(`([A-Za-z0-9_]+\.go):(\d+)`)
+
+func runNativeMode(reg *Registry, files []string, pp *packages.Package, race bool) (map[string]replayOutcome, error) {
 	out := map[string]replayOutcome{}
 	if len(files) == 0 {
 		return out, nil
 	}
+	raceOrig := ""
 	tmp, err := os.MkdirTemp("", "gosmt-replay-")
 	if err != nil {
 		return nil, err
@@ -91,18 +128,41 @@ func runNative(reg *Registry, files []string, pp *packages.Package) (map[string]
 		return nil, err
 	}
 	repl := map[string]string{}
+	overlaid := pp != nil
 	if pp == nil {
 		pp, err = loadTyped()
 		if err != nil {
 			return nil, fmt.Errorf("instrumenting for replay: %v", err)
 		}
 	}
-	ins, err := instrumented(pp, tmp)
-	if err != nil {
-		return nil, fmt.Errorf("instrumenting for replay: %v", err)
-	}
-	for k, v := range ins {
-		repl[k] = v
+	if !race {
+		ins, err := instrumented(pp, tmp)
+		if err != nil {
+			return nil, fmt.Errorf("instrumenting for replay: %v", err)
+		}
+		for k, v := range ins {
+			repl[k] = v
+		}
+	} else {
+		// free-running copies of the records (no schedule), each harness run several times
+		var free []string
+		for i, f := range files {
+			var rec ReplayRec
+			b, err := os.ReadFile(f)
+			if err != nil {
+				return nil, err
+			}
+			_ = json.Unmarshal(b, &rec)
+			rec.Schedule = nil
+			nb, _ := json.Marshal(rec)
+			p := filepath.Join(tmp, fmt.Sprintf("race-%d.json", i))
+			os.WriteFile(p, nb, 0o644)
+			for k := 0; k < 8; k++ {
+				free = append(free, p)
+			}
+		}
+		raceOrig = files[0]
+		files = free
 	}
 	for _, f := range hfiles {
 		base := filepath.Base(f)
@@ -119,6 +179,9 @@ func runNative(reg *Registry, files []string, pp *packages.Package) (map[string]
 	for _, h := range reg.Harnesses {
 		if !seen[h.Func] {
 			seen[h.Func] = true
+			if overlaid && len(droppedHarness) > 0 && pp.Types != nil && pp.Types.Scope().Lookup(h.Func) == nil {
+				continue // its harness file does not compile against the current tree
+			}
 			names = append(names, h.Func)
 		}
 	}
@@ -137,7 +200,12 @@ func runNative(reg *Registry, files []string, pp *packages.Package) (map[string]
 	if err := os.WriteFile(ovPath, ov, 0o644); err != nil {
 		return nil, err
 	}
-	cmd := exec.Command("go", "test", "-vet=off", "-count=1", "-v", "-run", "^TestVerifReplay$", "-overlay", ovPath, "-timeout", "600s", ".")
+	goArgs := []string{"test", "-vet=off", "-count=1", "-v", "-run", "^TestVerifReplay$", "-overlay", ovPath, "-timeout", "600s"}
+	if race {
+		goArgs = append(goArgs, "-race")
+	}
+	goArgs = append(goArgs, ".")
+	cmd := exec.Command("go", goArgs...)
 	cmd.Dir = repoDir
 	cmd.Env = append(os.Environ(), "GOFLAGS=-mod=mod", "GOPROXY=off", "VERIF_REPLAY_FILES="+strings.Join(files, ":"))
 	var buf bytes.Buffer
@@ -146,6 +214,34 @@ func runNative(reg *Registry, files []string, pp *packages.Package) (map[string]
 	runErr := cmd.Run()
 	if os.Getenv("GOSMT_NATIVE_LOG") != "" {
 		os.WriteFile(os.Getenv("GOSMT_NATIVE_LOG"), buf.Bytes(), 0o644)
+	}
+	if race {
+		// one record per call: any DATA RACE report in the output belongs to it
+		text := buf.String()
+		kind, detail := "OK", ""
+		if strings.Contains(text, "WARNING: DATA RACE") {
+			kind = "RACE"
+			seen := map[string]bool{}
+			var locs []string
+			for _, ln := range strings.Split(text, "\n") {
+				if !strings.Contains(ln, repoDir+"/") || strings.Contains(ln, "zz_verif") {
+					continue
+				}
+				if mm := raceLineRe.FindStringSubmatch(ln); mm != nil && !seen[mm[0]] {
+					seen[mm[0]] = true
+					locs = append(locs, mm[0])
+				}
+			}
+			detail = strings.Join(locs, " ")
+		} else if !strings.Contains(text, "VERIF-REPLAY ") {
+			tail := text
+			if len(tail) > 1500 {
+				tail = tail[len(tail)-1500:]
+			}
+			kind, detail = "MISSING", fmt.Sprintf("no outcome line (go test -race: %v): %s", runErr, strings.ReplaceAll(tail, "\n", " | "))
+		}
+		// files was replaced by the free-running copies; report under the original name
+		return map[string]replayOutcome{raceOrig: {Kind: kind, Detail: detail}}, nil
 	}
 	sc := bufio.NewScanner(&buf)
 	sc.Buffer(make([]byte, 1<<20), 1<<24)
@@ -214,6 +310,17 @@ func cmdReplay(args []string) int {
 
 func reproduces(rec ReplayRec, r replayOutcome) bool {
 	switch {
+	case isRaceOb(rec.Obligation):
+		// the Go race detector must report a race that involves one of the two accesses
+		if r.Kind != "RACE" {
+			return false
+		}
+		for _, part := range strings.Split(strings.TrimPrefix(rec.Obligation, "C15.RACE@"), "~") {
+			if i := strings.Index(part, "("); i > 0 && strings.Contains(" "+r.Detail+" ", " "+part[:i]+" ") {
+				return true
+			}
+		}
+		return false
 	case rec.Obligation == "PANIC":
 		return r.Kind == "PANIC"
 	case rec.Obligation == "DEADLOCK":
@@ -262,6 +369,7 @@ func cmdCheck(args []string) int {
 	if *prop == "" {
 		usage()
 	}
+	raceCheckProp = *prop
 	seed := 0
 	if s := os.Getenv("VERIF_SEED"); s != "" {
 		seed, _ = strconv.Atoi(s)
@@ -308,6 +416,17 @@ func cmdCheck(args []string) int {
 				}
 			}
 			if !ok {
+				continue
+			}
+		}
+		if pt, ok := h.PropTiers[*prop]; ok {
+			in := false
+			for _, t := range pt {
+				if t == *tier {
+					in = true
+				}
+			}
+			if !in {
 				continue
 			}
 		}
@@ -386,9 +505,30 @@ func cmdCheck(args []string) int {
 				fmt.Printf("  note: %s contributes only its implicit obligations (no panic / no deadlock on %d paths) to %s\n", r.name, res.Paths, *prop)
 			}
 		}
+		if r.spec.ExpectRace {
+			// the twin that must come back violated: otherwise the detector is blind
+			found := false
+			for _, v := range res.Violations {
+				if isRaceOb(v.Obligation) {
+					found = true
+				}
+			}
+			if !found {
+				inconclusive = append(inconclusive, r.name+": the race detector did not report the seeded unsynchronised access (detector blind)")
+			}
+			continue
+		}
+		raceRecs := map[string]bool{}
 		for _, v := range res.Violations {
 			if !relevant(v.Obligation, *prop, r.spec) {
 				continue
+			}
+			if isRaceOb(v.Obligation) {
+				// every worker reports a racing pair once; one native confirmation per pair, six pairs per harness
+				if raceRecs[v.Obligation] || len(raceRecs) >= 6 {
+					continue
+				}
+				raceRecs[v.Obligation] = true
 			}
 			key := *prop + "|" + r.name + "|" + v.Obligation
 			if k, ok := knownIdx[key]; ok && k.Status == "known" {
